@@ -137,17 +137,32 @@ def doc_weights(algo, prm):
     raise ValueError(algo)
 
 
-def residual(K, C, M, F, states):
-    """(r, scale): r = K u_t + C v_t + M a_t - F and the natural magnitude |K||u_t| + |C||v_t| + |M||a_t| + |F|"""
+def state_scales(algo, prm, u_n, v_n, a_n, u1, states):
+    """natural magnitudes (per dof) of the evaluation-point states: v_t and a_t are differences of the
+    displacement-like inputs (u_{n+1}, u_n, dt v_n, dt^2 a_n) divided by dt and dt^2, so their rounding is
+    governed by |weight| x those inputs, not by the possibly cancelled result."""
+    dt = prm[0]
+    wK, wC, wM = (0.0, 0.0, 0.0) if algo == "euler_explicit" else doc_weights(algo, prm)
+    U = np.maximum.reduce([np.abs(u1), np.abs(u_n), dt * np.abs(v_n), dt**2 * np.abs(a_n)])
     u_t, v_t, a_t = states
+    su = np.maximum(np.abs(u_t), np.maximum(np.abs(u1), np.abs(u_n)))
+    sv = None if v_t is None else np.maximum(np.abs(v_t), abs(wC) * U)
+    sa = None if a_t is None else np.maximum(np.abs(a_t), abs(wM) * U)
+    return su, sv, sa
+
+
+def residual(K, C, M, F, states, scales=None):
+    """(r, scale): r = K u_t + C v_t + M a_t - F and the natural magnitude |K| s_u + |C| s_v + |M| s_a + |F|"""
+    u_t, v_t, a_t = states
+    su, sv, sa = scales if scales is not None else tuple(None if x is None else np.abs(x) for x in states)
     r = K @ u_t - F
-    s = np.abs(K) @ np.abs(u_t) + np.abs(F)
+    s = np.abs(K) @ su + np.abs(F)
     if v_t is not None:
         r = r + C @ v_t
-        s = s + np.abs(C) @ np.abs(v_t)
+        s = s + np.abs(C) @ sv
     if a_t is not None:
         r = r + M @ a_t
-        s = s + np.abs(M) @ np.abs(a_t)
+        s = s + np.abs(M) @ sa
     return r, s
 
 
